@@ -677,7 +677,7 @@ class MainTransformer(object):
 
         return (not isinstance(target, ast.Type) or
                 target not in ast.BASIC_TYPES or
-                target.ctype.endswith('*'))
+                (target.ctype is not None and target.ctype.endswith('*')))
 
     def _apply_transfer_annotation(self, parent, node, annotations):
         transfer_annotation = annotations.get(ANN_TRANSFER)
